@@ -11,7 +11,7 @@ from props import frames
 
 BOUNDARIES = ["lod", "json", "pandas", "arrow"]
 KIND_PALS = {"bool": gamma.BOOL, "int": gamma.Palette("int/conv", "int", [-3, 0, 7, 2**53 + 1], has_na=False, full_dtype=int),
-             "float": gamma.FLOAT_INF, "str": gamma.STR_SHORT, "str_long": gamma.STR_LONG, "date": gamma.DATE, "datetime": gamma.DATETIME}
+             "float": gamma.FLOAT_INF, "str": gamma.STR_SHORT, "str_long": gamma.STR_LONG, "date": gamma.DATE, "datetime": gamma.DATETIME, "datetime_ns": gamma.DATETIME_NS}
 DTKIND = {"b": "bool", "i": "int", "u": "int", "f": "float", "T": "str", "U": "str", "M": "date", "O": "obj"}
 
 
@@ -71,7 +71,7 @@ def back_from(b, inter):
 def execute(fr, kinds, b):
     import dataiter as di
     pals = {c: KIND_PALS[kinds[c]] for c in fr["cols"]}
-    rec = {"fr": fr, "b": b, "kinds": {c: kinds[c].replace("_long", "") for c in kinds}, "err": "",
+    rec = {"fr": fr, "b": b, "kinds": {c: kinds[c].replace("_long", "").replace("_ns", "") for c in kinds}, "err": "",
            "inter": {"nrec": -1, "fields": [], "null": {}, "sentinel": {}}, "back": {"cols": [], "cell": {}}, "kinds_back": {}}
     try:
         d = frames.build(fr, pals)
@@ -84,14 +84,14 @@ def execute(fr, kinds, b):
         obs_pals = dict(pals)
         if b == "json":
             for c in fr["cols"]:      # dates cross JSON as ISO text (free point): read them back as such
-                if kinds[c] in ("date", "datetime"):
+                if kinds[c] in ("date", "datetime", "datetime_ns"):
                     src = pals[c]
                     obs_pals[c] = Palette(src.name + "->iso", "str", [str(np.datetime64(v, "D" if kinds[c] == "date" else "us")).replace("T", " ")
-                                                                      if kinds[c] == "datetime" else v.isoformat() for v in src.values], na="")
+                                                                      if kinds[c] != "date" else v.isoformat() for v in src.values], na="")
         rec["back"] = frames.observe(d2, obs_pals)
         if b == "json":
             for c in fr["cols"]:
-                if kinds[c] == "datetime" and c in rec["back"]["cell"]:
+                if kinds[c] in ("datetime", "datetime_ns") and c in rec["back"]["cell"]:
                     # any ISO rendering of the same instant is the same value
                     vals = [str(x) for x in np.asarray(d2[c]).tolist()]
                     src = pals[c]
